@@ -129,6 +129,9 @@ func unsupported(msg string) unsupportedErr { return unsupportedErr{msg} }
 
 type pathEnd struct{ reason string }
 
+// parkReq: the current goroutine blocks forever; frames unwind up to the vpGo that started it.
+type parkReq struct{}
+
 type forkReq struct {
 	target ssa.Value
 	alts   []Alt
@@ -541,6 +544,12 @@ func (e *Engine) safeStep(fr *Frame, st *State) (res stepResult, endReason strin
 					}})
 				}
 				res = stepResult{kind: stepBranch, branches: bs}
+			case parkReq:
+				// behave like a return of the current function; callers up to vpGo see the
+				// park marker in the state and return as well
+				st.ghost["vp.parked"] = e.tm.True
+				fr.ret = e.zeroRet(fr.fn)
+				res = stepResult{kind: stepReturn}
 			case pathEnd:
 				ended = true
 				endReason = x.reason
@@ -561,8 +570,24 @@ func (e *Engine) safeStep(fr *Frame, st *State) (res stepResult, endReason strin
 	return
 }
 
+func (e *Engine) zeroRet(fn *ssa.Function) Value {
+	res := fn.Signature.Results()
+	switch res.Len() {
+	case 0:
+		return nil
+	case 1:
+		return e.zero(res.At(0).Type())
+	}
+	return e.zero(res)
+}
+
 func (e *Engine) runPath(fr *Frame, st *State, stack *[]work) (Outcome, bool) {
 	for {
+		if _, parked := st.ghost["vp.parked"]; parked && !e.inHarnessFile(fr.fn) {
+			// unwinding a parked goroutine
+			fr.ret = e.zeroRet(fr.fn)
+			return Outcome{st: st, ret: fr.ret}, true
+		}
 		if e.stop.Load() {
 			e.rep.PathBudgetHit = true
 			e.note("deadline reached: exploration truncated")
